@@ -616,6 +616,58 @@ pub fn run_workload(sub: u64, only_leg: Option<&str>, acc: &mut Acc, ctx: &Ctx, 
         }
     }
 
+    // ---- closed pipe under arbitrary output-shaping flags -----------------------------
+    // Whatever the flags make of the output: when stdout closes after k bytes, exactly the first
+    // k bytes of the uninterrupted output were written, nothing goes to stderr, and a run that
+    // would have succeeded does not end in a failure status.
+    if want("epipe-swarm") && rng.chance(1, 2) {
+        let mut sargs: Vec<String> = ["--no-config", "--color=never", "-j1", "--sort=path"].iter().map(|s| s.to_string()).collect();
+        for f in ["-o", "-rX", "-b", "--column", "--vimgrep", "-v", "-w", "--max-columns=30", "--max-columns-preview", "--passthru", "--heading", "-c", "--count-matches", "-l", "--files-without-match", "-A2", "-B1", "-C3", "--trim", "--crlf", "-U", "-m1", "-m3", "-N", "-n", "--no-filename", "--context-separator=::", "--include-zero", "--null", "--no-mmap", "--mmap", "--line-buffered", "--block-buffered", "-a"] {
+            if rng.chance(1, 8) {
+                sargs.push(f.to_string());
+            }
+        }
+        sargs.extend(["foo".into(), "w".into()]);
+        let ref_spec = RunSpec { args: sargs.clone(), plan: vec!["noop=1".into()], ..RunSpec::default() };
+        let full = ctx.run(&cwd, &ref_spec, 30);
+        acc.evals += 1;
+        digest = digest_out(digest, &full);
+        if full.code <= 1 && !full.stdout.is_empty() {
+            let n = full.stdout.len();
+            let mut ks: BTreeSet<usize> = [0, 1, n / 2, n - 1].into_iter().collect();
+            for _ in 0..3 {
+                ks.insert(rng.below(n));
+            }
+            if n > 8200 {
+                ks.insert(8191);
+                ks.insert(8193);
+            }
+            for k in ks {
+                let spec = RunSpec { args: sargs.clone(), plan: vec![format!("stdout_budget={k}")], ..RunSpec::default() };
+                let got = ctx.run(&cwd, &spec, 30);
+                acc.evals += 1;
+                digest = digest_out(digest, &got);
+                acc.faults.add("stdout-EPIPE-after-k-bytes(flag swarm)", got.fired("epipe").min(1));
+                if got.fired("epipe") == 0 {
+                    continue;
+                }
+                let detail = json!({"k": k, "flags": sargs});
+                if got.stdout[..] != full.stdout[..k] {
+                    acc.violation("C15", "epipe-output-not-prefix", format!("rg {:?}: stdout closed after {k} bytes: output is not the first {k} bytes of the uninterrupted output", sargs), sub, replay_body(sub, &w, "epipe-swarm", &spec, Some(&full), &got, detail.clone()));
+                }
+                if !got.stderr.is_empty() {
+                    acc.violation("C15", "epipe-diagnostic", format!("rg {:?}: stdout closed after {k} bytes: stderr not empty: {:?}", sargs, show(&got.stderr)), sub, replay_body(sub, &w, "epipe-swarm", &spec, Some(&full), &got, detail.clone()));
+                }
+                if got.code != 0 && got.code != full.code {
+                    acc.violation("C15", "epipe-status:single-threaded-search", format!("rg {:?}: stdout closed after {k} bytes: exit {} (the uninterrupted run exits {})", sargs, got.code, full.code), sub, replay_body(sub, &w, "epipe-swarm", &spec, Some(&full), &got, detail.clone()));
+                }
+                if got.fired("opens_after_epipe") > 0 {
+                    acc.violation("C15", "epipe-not-prompt", format!("rg {:?}: stdout closed after {k} bytes: {} more files were opened afterwards", sargs, got.fired("opens_after_epipe")), sub, replay_body(sub, &w, "epipe-swarm", &spec, Some(&full), &got, detail.clone()));
+                }
+            }
+        }
+    }
+
     // ---- invalid arguments --------------------------------------------------------
     if want("invalid-args") && rng.chance(1, 2) {
         let bad: [(&str, Vec<&str>); 19] = [
